@@ -22,11 +22,11 @@ Reset == /\ Ev("reset")
   /\ aFC' = [s \in Streams |-> 0] /\ aFCc' = 0 /\ aCred' = [s \in Streams |-> 0] /\ aCredC' = 0
   /\ sentLog' = [s \in Streams |-> <<>>] /\ dlvLog' = [s \in Streams |-> <<>>]
   /\ nSend' = 0 /\ nCtl' = 0 /\ hcount' = 0 /\ encOrder' = <<>> /\ dlvOrder' = <<>>
-  /\ pings' = {} /\ goneAway' = "no" /\ aClosed' = FALSE
+  /\ pings' = {} /\ goneAway' = "no" /\ aClosed' = FALSE /\ sets' = [a2b |-> 0, b2a |-> 0, ackA |-> 0, ackB |-> 0]
   /\ pendA' = <<>> /\ seenCred' = [s \in Streams |-> 0] /\ seenCredC' = 0
 
 \* --- logged: A hands a frame to the wire
-LogA == /\ (Ev("a_data") \/ Ev("a_headers") \/ Ev("a_cont") \/ Ev("a_rst") \/ Ev("a_push") \/ Ev("a_prio") \/ Ev("a_ping") \/ Ev("a_goaway") \/ Ev("a_close") \/ Ev("a_unknown"))
+LogA == /\ (Ev("a_data") \/ Ev("a_headers") \/ Ev("a_cont") \/ Ev("a_rst") \/ Ev("a_push") \/ Ev("a_prio") \/ Ev("a_ping") \/ Ev("a_goaway") \/ Ev("a_close") \/ Ev("a_unknown") \/ Ev("a_settings_sent"))
         /\ pendA' = Append(pendA, T)
         /\ UNCHANGED <<vars, seenCred, seenCredC>>
 \* --- unlogged: relayFrames reads it and processFrame runs
@@ -42,6 +42,7 @@ ProcA == /\ pendA # <<>> /\ pendA' = Tail(pendA)
                 [] e.ev = "a_goaway"  -> ASendGoAway
                 [] e.ev = "a_close"   -> ASendClose
                 [] e.ev = "a_unknown" -> ASendUnknown
+                [] e.ev = "a_settings_sent" -> ASendSettings
          /\ UNCHANGED <<l, seenCred, seenCredC>>
 \* --- logged: B sends a control frame
 LogB == /\ Ev("b_ctl") /\ BCtl([t |-> T.t, s |-> T.s, v |-> T.v])
@@ -54,6 +55,9 @@ LogRecv == /\ Ev("b_recv") /\ out # <<>>
 \* --- logged: B receives a connection-level frame the sender issued
 LogConn == /\ \/ (Ev("b_ping") /\ BRecvPing(T.n))
               \/ (Ev("b_goaway") /\ BRecvGoAway)
+              \* SETTINGS frames and acknowledgements seen by the endpoints
+              \/ (Ev("a_settings") /\ ARecvSettings) \/ (Ev("b_settings") /\ BRecvSettings)
+              \/ (Ev("a_ack") /\ ARecvAck) \/ (Ev("b_ack") /\ BRecvAck)
            /\ UNCHANGED <<pendA, seenCred, seenCredC>>
 \* --- logged: A receives WINDOW_UPDATE from the relay; never more than the relay owes
 LogCredit == /\ Ev("a_credit")
@@ -63,7 +67,7 @@ LogCredit == /\ Ev("a_credit")
              /\ UNCHANGED <<vars, pendA>>
 \* --- logged: the harness declares quiescence: everything must have been explained
 LogQuiet == /\ Ev("quiet") /\ pendA = <<>> /\ ctl = <<>> /\ out = <<>>
-            /\ pings = {} /\ goneAway # "sent"                                   \* PING / GOAWAY were relayed (C10)
+            /\ pings = {} /\ goneAway # "sent" /\ SetsDone                       \* PING / GOAWAY / SETTINGS and their acknowledgements were relayed (C10)
             /\ seenCredC = aFCc /\ \A s \in Streams : seenCred[s] = aFC[s]      \* all credit returned (C09)
             /\ \A s \in Streams : q[s] = <<>> => dlvLog[s] = sentLog[s]          \* nothing lost (C10)
             /\ UNCHANGED <<vars, pendA, seenCred, seenCredC>>
